@@ -487,8 +487,49 @@ def case(args):
     return (kind, tag, transform), errs, n
 
 
+def penalty_order_level(depth):
+    """the penalty of an inconsistent match is the sum of its event costs; reflection reverses the order of the events along the read.
+       Every sequence of <= depth events over one representative event per distinct cost, scored by the real
+       LongReadAssigner.select_best_among_inconsistent for two isoforms - A with the events in that order, B with the reversed order:
+       both have the same events, so they must tie whatever the order"""
+    import src.isoform_assignment as IA
+    from src.long_read_assigner import LongReadAssigner
+    from types import SimpleNamespace
+    by_cost = {}
+    for t, c in IA.event_subtype_cost.items():
+        if c > 0 and "elongation" not in t.name:
+            by_cost.setdefault(c, t)
+    reps = [by_cost[c] for c in sorted(by_cost)]
+    a = LongReadAssigner.__new__(LongReadAssigner)
+    a.params = SimpleNamespace(minor_exon_extension=50, major_exon_extension=300)
+    a.coverage_based_nucleotide_score = None
+    a.resolve_by_nucleotide_score = lambda profile, isoforms, similarity_function=None: isoforms
+    bad = []
+    n = 0
+    for k in range(2, depth + 1):
+        for seq in itertools.product(reps, repeat=k):
+            if tuple(reversed(seq)) < seq and tuple(reversed(seq)) != seq:
+                pass
+            n += 1
+            ev = [IA.MatchEvent(t) for t in seq]
+            try:
+                best, score = a.select_best_among_inconsistent(None, {"A": ev, "B": list(reversed(ev))})
+            except Exception as e:  # noqa
+                bad.append((seq, "select_best_among_inconsistent raised %r" % (e,)))
+                continue
+            if sorted(best) != ["A", "B"]:
+                costs = [IA.event_subtype_cost[t] for t in seq]
+                bad.append((seq, "events with costs %s: the isoform whose events come in this order and the one with the reversed order do not "
+                                 "tie (best: %s): the sums differ in the last bit" % (costs, best)))
+    return n, bad
+
+
 def run(ctx):
     quick = ctx.tier == "quick"
+    n_po, bad_po = penalty_order_level(3 if quick else 4)
+    for seq, msg in bad_po[:3]:
+        ctx.violation("l0:penalty-depends-on-event-order", msg, {"events": [t.name for t in seq]})
+    ctx.note("L0 penalty order: %d event sequences (one event per distinct cost, both orders scored by the real function)" % n_po)
     from vlib import mix
     from props import c01
     n_ann = len(c01.annotations("quick"))
